@@ -1,6 +1,7 @@
 #!/bin/bash
 # run_all_seeded_par.sh [tier] [jobs] : like run_all_seeded.sh, but in <jobs> scratch worktrees of /repo's HEAD (outside /repo and
-# /verif, removed afterwards) so that /repo itself is never touched; the cases import spatialpandas from the worktree (PYTHONPATH)
+# /verif, removed afterwards) so that /repo itself is never touched; each job is limited to SEED_THREADS (3) numba threads - more
+# jobs than cores / threads makes the numba-parallel kernels crawl; the cases import spatialpandas from the worktree (PYTHONPATH)
 tier=${1:-quick}; jobs=${2:-4}
 cd /verif
 ls -d seeded/*/ | xargs -n1 basename > /tmp/seedlist.$$
@@ -13,7 +14,7 @@ for j in $(seq 1 $jobs); do
       prop=$(python3 -c "import json;print(json.load(open('$d/meta.json'))['property'])")
       if python3 -c "import json,sys;sys.exit(0 if json.load(open('$d/meta.json')).get('obsolete') else 1)"; then echo "$sid obsolete (see meta.json)"; continue; fi
       git -C /tmp/sw$j checkout -q -- . ; git -C /tmp/sw$j apply /verif/$d/patch.diff || { echo "$sid: patch does not apply"; continue; }
-      out=$(PYTHONPATH=/tmp/sw$j timeout 3000 tools/cases_only.py $prop $tier 2>&1 | grep -v conda | grep "^$prop \|^VIOL\|^TIE\|^KNOWN")
+      out=$(NUMBA_NUM_THREADS=${SEED_THREADS:-3} PYTHONPATH=/tmp/sw$j timeout 3000 tools/cases_only.py $prop $tier 2>&1 | grep -v conda | grep "^$prop \|^VIOL\|^TIE\|^KNOWN")
       git -C /tmp/sw$j checkout -q -- .
       nv=$(echo "$out" | grep -c "^VIOL\|^TIE")
       echo "$sid check=$prop new-violation-signatures=$nv $(echo "$out" | grep "^VIOL\|^TIE" | head -1 | cut -c1-110)"
